@@ -601,6 +601,12 @@ func (t *Dense) Zero() {
 		if err := t.zeroIter(it); err != nil {
 			panic(err)
 		}
+		// the elements of the view have been zeroed through the iterator: do not fall through to
+		// zeroing the whole storage window, which also holds elements that are not part of the view
+		if t.IsMasked() {
+			t.ResetMask()
+		}
+		return
 	}
 	if t.IsMasked() {
 		t.ResetMask()
